@@ -130,6 +130,20 @@ CLAIMED = {
     ),
 }
 
+# additions made after the first build (kept apart so that the long entries above stay untouched)
+EXTRA_NOTES = {
+    "C02": " Every configuration is entered from another, fully evaluated configuration of the same instance and the writers run before any read in 2 of 3 cases (stale internal flags); the same fixpoint is checked through kconfgen's command line (spec/KStore.tla GenRun, spec/MC_Gen.tla: --defaults files merged in order, sdkconfig merged on top, both policies, second run rewrites nothing).",
+    "C10": " Every configuration is entered from another, fully evaluated one; write_min_config runs before any read in 1 of 3 cases.",
+    "C03": " Plus seeded walks of 4-8 actions, replacing loads of files the tool itself wrote (default-marked entries) and the observation that no such history rewrites an option's defaults (R-NoInjection).",
+    "C04": " Macro variants since added: NAME = / := literal in front of entries (redefined later), used bare, quoted, embedded and doubled in default values and range bounds.",
+    "C11": " The program also comes in a variant whose conditions still mention the deprecated names without defining them.",
+    "C13": " copyfile(follow_symlinks=False) is honoured by the interposer and modelled in Trace_Save as a second name of the destination file.",
+    "C15": " Rows since added: file names the OS refuses (NUL, lone surrogate, empty), set / reset of a name that is only mentioned in expressions.",
+    "C18": " Include lines (source / rsource / osource / orsource) after entries are now part of the generated files; the included file defines an option.",
+    "C19": " Skeleton since extended to 10 directories (a second directory inside the nested project with its own rename file).",
+    "C20": " Programs now contain options defined twice, inside and outside a target-gated menu (both orders).",
+}
+
 REASON_PENDING = "check not built yet in this session (planned in DESIGN.md section 3); not claimed until its TLA+ model and conformance harness exist"
 
 
@@ -148,7 +162,7 @@ def main():
                 "replay_cmd_template": "./check %s --replay {path}" % pid,
                 "engine": "tlc+replay",
                 "level_claimed": {"category": "model_checking", "text": c["text"], "design_ref": c["design_ref"]},
-                "level_note": c["note"],
+                "level_note": c["note"] + EXTRA_NOTES.get(pid, ""),
                 "technique": c["technique"],
             }
         )
